@@ -66,14 +66,26 @@ structure UnitIndex where
   sizes : Bytes
   deriving Repr, DecidableEq
 
+/-- `if version == 2 { match DwSectV2 … } else { match DwSect … }` -/
+def kindOf (version n : Nat) : Out SecKind := if version = 2 then kindV2 n else kindV5 n
+
 /-- the `for i in 0..section_count` loop reading the column kinds -/
 def readKinds (e : Endian) (version : Nat) : Nat → Bytes → Out (List SecKind × Bytes)
   | 0, bs => .ok ([], bs)
   | n + 1, bs => do
     let (s, bs) ← readFixed e 4 bs
-    let k ← if version = 2 then kindV2 s else kindV5 s
+    let k ← kindOf version s
     let (ks, bs) ← readKinds e version n bs
     pure (k :: ks, bs)
+
+/-- the version test at the start of `UnitIndex::parse`: GNU v2 has a 32-bit version, DWARF 5 a
+16-bit version followed by 16 bits of padding (re-read from `original_input`) -/
+def parseVersion (e : Endian) (input : Bytes) : Out (Nat × Bytes) := do
+  let (v32, rest) ← readFixed e 4 input
+  if v32 = 2 then pure (2, rest)
+  else do
+    let (v16, _) ← readFixed e 2 input
+    if v16 ≠ 5 then .err .rUnknownVersion else pure (v16, rest)
 
 /-- `UnitIndex::parse` -/
 def parse (e : Endian) (input : Bytes) : Out UnitIndex :=
@@ -81,12 +93,7 @@ def parse (e : Endian) (input : Bytes) : Out UnitIndex :=
     .ok { version := 0, sectionCount := 0, unitCount := 0, slotCount := 0, hashIds := [],
           hashRows := [], sections := [], offsets := [], sizes := [] }
   else do
-    let (v32, rest) ← readFixed e 4 input
-    let version ←
-      if v32 = 2 then (pure 2 : Out Nat)
-      else do
-        let (v16, _) ← readFixed e 2 input
-        if v16 ≠ 5 then .err .rUnknownVersion else pure v16
+    let (version, rest) ← parseVersion e input
     let (sectionCount, rest) ← readFixed e 4 rest
     let (unitCount, rest) ← readFixed e 4 rest
     let (slotCount, rest) ← readFixed e 4 rest
